@@ -150,6 +150,34 @@ fn conv<M>(r: Result<M, coupe::Error>) -> Res {
 
 /// Runs the real entry point on a copy of the array; returns the result and the array afterwards.
 fn run_impl(c: &Case) -> (Caught<Res>, Vec<usize>) {
+    run_impl_v(c, 0)
+}
+
+/// The weights of the iterator-taking algorithms (Greedy, KarmarkarKarp, CompleteKarmarkarKarp,
+/// VnBest: `W: IntoIterator`) handed over as different but legal input TYPES for the same data:
+/// 0 = `slice.iter().cloned()` (exact size hint), 1 = `.filter(|_| true)` (size hint `(0, Some(n))`),
+/// 2 = `iter::from_fn` (size hint `(0, None)`), 3 = the `Vec` by value, 4 = `.chain(empty())`
+/// behind `Box<dyn Iterator>`. The outcome must not depend on the type.
+const ITER_VARIANTS: usize = 5;
+
+fn weights_iter<'a>(w: &'a [i64], variant: usize) -> Box<dyn Iterator<Item = i64> + 'a> {
+    match variant {
+        1 => Box::new(w.iter().cloned().filter(|_| true)),
+        2 => {
+            let mut i = 0;
+            Box::new(std::iter::from_fn(move || {
+                let r = w.get(i).cloned();
+                i += 1;
+                r
+            }))
+        }
+        3 => Box::new(w.to_vec().into_iter()),
+        4 => Box::new(w.iter().cloned().chain(std::iter::empty())),
+        _ => Box::new(w.iter().cloned()),
+    }
+}
+
+fn run_impl_v(c: &Case, variant: usize) -> (Caught<Res>, Vec<usize>) {
     let mut p = c.p.clone();
     let w = c.w.clone();
     let r = {
@@ -166,10 +194,17 @@ fn run_impl(c: &Case) -> (Caught<Res>, Vec<usize>) {
                 let pts = points2(c.npts, c.shape);
                 conv(coupe::Rib { iter_count: c.iter, tolerance: c.tol }.partition(p, (&pts[..], w.par_iter().cloned())))
             }
-            "greedy" => conv(coupe::Greedy { part_count: c.k }.partition(p, w.iter().cloned())),
-            "kk" => conv(coupe::KarmarkarKarp { part_count: c.k }.partition(p, w.iter().cloned())),
-            "ckk" => conv(coupe::CompleteKarmarkarKarp { tolerance: c.tol }.partition(p, w.iter().cloned())),
-            "vnbest" => conv(coupe::VnBest.partition(p, w.iter().cloned())),
+            "greedy" => conv(coupe::Greedy { part_count: c.k }.partition(p, weights_iter(&w, variant))),
+            "kk" => {
+                // KarmarkarKarp asks for an ExactSizeIterator: the slice iterator or the Vec by value
+                if variant == 3 {
+                    conv(coupe::KarmarkarKarp { part_count: c.k }.partition(p, w.to_vec().into_iter()))
+                } else {
+                    conv(coupe::KarmarkarKarp { part_count: c.k }.partition(p, w.iter().cloned()))
+                }
+            }
+            "ckk" => conv(coupe::CompleteKarmarkarKarp { tolerance: c.tol }.partition(p, weights_iter(&w, variant))),
+            "vnbest" => conv(coupe::VnBest.partition(p, weights_iter(&w, variant))),
             "vnfirst" => conv(coupe::VnFirst.partition(p, &w[..])),
             "fm" => {
                 let adj = coupe::sprs::CsMat::<i64>::zero((c.graph, c.graph));
@@ -340,6 +375,28 @@ pub fn run_op(ctx: &mut Ctx, op: &str) {
                 _ => {
                     verdict = Some((format!("c20-valid-input-rejected:{}", algo), format!("valid input, got `{}`", out)));
                 }
+            }
+        }
+    }
+    // input-type plumbing: the same weights through iterators of other types (inexact and
+    // unbounded size hints among them) give the same outcome and the same array
+    if verdict.is_none() && matches!(algo, "greedy" | "kk" | "ckk" | "vnbest") {
+        let key = |r: &Caught<Res>| match r {
+            Caught::Ok(Res::Ok) => "ok".to_string(),
+            Caught::Ok(Res::Err(e)) => format!("err {:?}", e),
+            Caught::Ok(Res::HErr(e)) => format!("err {:?}", e),
+            Caught::Panic(_) => "panic".to_string(),
+            Caught::Hang => "hang".to_string(),
+        };
+        for v in 1..ITER_VARIANTS {
+            let (rv, pv) = run_impl_v(&c, v);
+            ctx.count("iterator_variant_runs");
+            if key(&rv) != key(&res) || pv != p {
+                verdict = Some((
+                    format!("c20-input-type-dependent:{}", algo),
+                    format!("weights through iterator type {} give `{}` / {:?}, through slice.iter().cloned() `{}` / {:?}", v, key(&rv), pv, key(&res), p),
+                ));
+                break;
             }
         }
     }
